@@ -316,13 +316,50 @@ def make_enforcer(rules, dflt=None, registered=(), enforce_scope=True, via='rule
     conf([], project='verif', default_config_files=[], default_config_dirs=[])
     kw = {}
     e = None
-    if dflt is not None and dflt[0] == 'opt':
+    if via == 'set_defaults' and any(name not in rules for name, _s, _t in registered):
+        via = 'rules_obj'
+    if dflt is not None and dflt[0] == 'opt' and via == 'set_defaults':
+        pass
+    elif dflt is not None and dflt[0] == 'opt':
         e0 = policy.Enforcer(conf, use_conf=False)      # registers the options
         conf.set_override('policy_default_rule', dflt[1], group='oslo_policy')
     elif dflt is not None and dflt[0] == 'name':
         kw['default_rule'] = dflt[1]
     elif dflt is not None and dflt[0] == 'check':
         kw['default_rule'] = _parser.parse_rule(rule_text(dflt[1]))
+    if via == 'set_defaults':
+        # the options take their values from opts.set_defaults(conf, policy_file, **defaults) - how a service
+        # changes the library's defaults - in ONE call; the option objects are process-global, so their
+        # defaults are put back after the call under observation (enforce_case calls e._verif_restore)
+        import atexit
+        import json as _json
+        import os
+        import shutil
+        import tempfile
+        from oslo_policy import opts
+        d = tempfile.mkdtemp(prefix='verif_enf_')
+        atexit.register(shutil.rmtree, d, True)
+        main = os.path.join(d, 'policy.json')
+        with open(main, 'w') as f:
+            _json.dump(rules, f)
+        saved = {o.name: o.default for o in opts._options}
+
+        def restore(saved=saved):
+            for o in opts._options:
+                o.default = saved[o.name]
+        kwd = {'enforce_scope': bool(enforce_scope)}
+        if dflt is not None and dflt[0] == 'opt':
+            kwd['policy_default_rule'] = dflt[1]
+        try:
+            opts.set_defaults(conf, main, **kwd)
+            e = policy.Enforcer(conf, **kw)
+            for name, scopes, text in registered:
+                e.register_default(policy.RuleDefault(name, text, scope_types=scopes or None))
+        except BaseException:
+            restore()
+            raise
+        e._verif_restore = restore
+        return e
     # how the rule set reaches the enforcer is a free variable of the
     # properties: a Rules object (carrying the enforcer's default, or a
     # default rule of its own, which the enforcer must ignore), a plain dict
